@@ -217,7 +217,7 @@ WORLDS.append(b.world([
 # W3  a model-level reference g: by name from two spaces, as _model.g, through a space (_model.S.g), shadowed
 #     and unshadowed in the space, read in an ItemSpace.
 b = B("model-ref")
-b.add("m.g = 1", "S = m.new_space('S')", "T = m.new_space('T')", "P = m.new_space('P', formula=lambda i: None)")
+b.add("m.g = 1", "S = m.new_space('S')", "T = m.new_space('T')", "P = m.new_space('P', formula='lambda i: None')")
 b.leaf("S", "m.S", "b", "g", "name-model-ref", wrap="cuxy")
 b.leaf("T", "m.T", "tg", "_model.g + 300", "attr-model-ref", wrap="cu")
 b.leaf("T", "m.T", "tsg", "_model.S.g + 400", "attr-space-model-ref", wrap="cu", style="def")
@@ -326,7 +326,7 @@ b.add("m.g = 1", "P = m.new_space('P', formula=lambda i: None)", "P.x = 2",
       "PC = P.new_space('PC')", "PC.y = 3", cells("PC", "ee", "y + 5"), cells("P", "k", "PC.y + 7"),
       cells("P", "ku", "PC.y + 8", cached=False), cells("P", "kuc", "ku() + 1"),
       "R = m.new_space('R')", "R.z = 4", cells("R", "base", "z * 2"),
-      "R.formula = lambda j: {'refs': {'kk': base() + j}}", cells("R", "v", "kk + 1"),
+      "R.formula = \"lambda j: {'refs': {'kk': base() + j}}\"", cells("R", "v", "kk + 1"),
       "T = m.new_space('T')", cells("T", "t", "_model.P[1].c() + 7000"), cells("T", "tv", "_model.R[1].v() + 8000"))
 b.q("m.P[1].c()", "name-space-ref", "in-itemspace")
 b.q("m.P[1].d()", "name-space-ref", "in-itemspace", "via:cached-callee")
@@ -350,7 +350,7 @@ WORLDS.append(b.world([
     e("m.R.base = 70", "value-assign", "called-by-param-formula"),
     e("m.R.base.clear_all()", "value-clear", "called-by-param-formula"),
     e("m.R.formula = lambda j: {'refs': {'kk': base() + j * 2}}", "space-formula-set"),
-    e("m.P.formula = lambda i: {'refs': {'x': 50}}", "space-formula-set"),
+    e("m.P.formula = \"lambda i: {'refs': {'x': 50}}\"", "space-formula-set"),
     e("m.P.formula = lambda i, j=0: None", "space-formula-set", "parameters"),
     e("del m.R.formula", "space-formula-delete"),
     e("m.P.c.formula = 'lambda: x + i * 20 + g * 100'", "formula-set"),
@@ -461,7 +461,7 @@ b.add("B1 = m.new_space('B1')", "B1.r = 1", cells("B1", "foo", "r + 10"),
       "B2 = m.new_space('B2')", "B2.r = 2", cells("B2", "foo", "r + 20"),
       "P = m.new_space('P', bases=[B1, B2], formula=lambda i: None)", cells("P", "c", "foo() * 10 + i", style="def"),
       "X = m.new_space('X')", "X.w = 3", cells("X", "h", "w + kk * 100"), "X.kk = 0",
-      "D = m.new_space('D', formula=lambda k: {'base': _model.X, 'refs': {'kk': k}})",
+      "D = m.new_space('D', formula=\"lambda k: {'base': _model.X, 'refs': {'kk': k}}\")",
       "T = m.new_space('T')", cells("T", "t", "_model.P[1].foo() + 5000"), cells("T", "td", "_model.D[2].h() + 6000"))
 b.q("m.P.foo()", "name-derived-ref", "derived-cells")
 b.q("m.P[1].foo()", "name-derived-ref", "derived-cells", "in-itemspace")
